@@ -659,6 +659,10 @@ class controller_MPI(Controller):
                 if self.req_diff is not None:
                     self.req_diff.Cancel()
 
+            # recompute the end point as controller_nonMPI does: the last receive may have changed u[0]
+            # after the end point was computed for sending (matters if the end point depends on u[0])
+            self.S.levels[0].sweep.compute_end_point()
+
             for hook in self.hooks:
                 hook.post_step(step=self.S, level_number=0)
             self.S.status.stage = 'DONE'
